@@ -10,6 +10,9 @@
   (`wf_fromEdges`), so every graph the Python API can build satisfies it.
 -/
 import Y0.Lemmas.Closure
+import Y0.Lemmas.Moral
+import Y0.Lemmas.Topo
+import Y0.Lemmas.Paths
 
 namespace Y0.MG
 variable {α : Type} [DecidableEq α]
@@ -533,6 +536,475 @@ theorem equiv_congr_districts (G H : MG α) (hG : G.WF) (hH : H.WF) (h : G.equiv
   have : G.BiEdge = H.BiEdge := by funext a b; exact propext (h.2.2 a b)
   simp [SameDistrict, this]
 
+/-! ## 12. moralize: same nodes and directed edges; nodes with a common child are married -/
+
+theorem mem_nodes_moralize (G : MG α) (hG : G.WF) (v : α) : v ∈ G.moralize.nodes ↔ v ∈ G.nodes := by
+  unfold moralize
+  rw [mem_nodes_foldl_addBi]
+  constructor
+  · rintro (h | ⟨e, he, h⟩)
+    · exact h
+    · rcases e with ⟨x, y⟩
+      obtain ⟨n, _, hx, hy⟩ := mem_moralLinks G x y he
+      rcases h with rfl | rfl
+      · exact (hG.di_mem _ hx).1
+      · exact (hG.di_mem _ hy).1
+  · exact Or.inl
+
+theorem diEdge_moralize (G : MG α) (u v : α) : G.moralize.DiEdge u v ↔ G.DiEdge u v := by
+  unfold moralize DiEdge; rw [di_foldl_addBi]
+
+/-- the undirected part of the moralised graph: the old bidirected edges plus one edge between every
+two distinct nodes that have a common child (and no self-loop is added: see `pairs`). -/
+theorem biEdge_moralize (G : MG α) (hG : G.WF) (u v : α) (huv : u ≠ v) :
+    G.moralize.BiEdge u v ↔ G.BiEdge u v ∨ ∃ c, G.DiEdge u c ∧ G.DiEdge v c := by
+  unfold moralize
+  rw [biEdge_foldl_addBi]
+  constructor
+  · rintro (h | h | h)
+    · exact Or.inl h
+    · obtain ⟨n, _, hx, hy⟩ := mem_moralLinks G u v h; exact Or.inr ⟨n, hx, hy⟩
+    · obtain ⟨n, _, hx, hy⟩ := mem_moralLinks G v u h; exact Or.inr ⟨n, hy, hx⟩
+  · rintro (h | ⟨c, hu, hv⟩)
+    · exact Or.inl h
+    · exact Or.inr (moralLinks_complete G u v c (hG.di_mem _ hu).2 hu hv huv)
+
+
+/-! ## 13. topological sort: networkx's generation-wise Kahn algorithm returns a linear extension
+exactly when the directed part is acyclic, and `NetworkXUnfeasible` otherwise -/
+
+/-- whatever `topological_sort` returns lists every node once with every directed edge going forward -/
+theorem topologicalSort_spec (G : MG α) (hG : G.WF) (l : List α) (h : G.topologicalSort = .ok l) :
+    G.IsTopoOrder l :=
+  topoLoop_ok G hG _ _ _ _ l (topoInv_init G hG) h
+
+/-- on an acyclic graph `topological_sort` returns (the fuel of the model is never exhausted) -/
+theorem topologicalSort_total (G : MG α) (hG : G.WF) (hA : G.Acyclic) :
+    ∃ l, G.topologicalSort = .ok l :=
+  topoLoop_total G hG hA _ _ _ _ (topoInv_init G hG) (by simp)
+
+/-- on a graph with a directed cycle (self-loops included) it raises `NetworkXUnfeasible` -/
+theorem topologicalSort_cyclic (G : MG α) (hG : G.WF) (hA : ¬ G.Acyclic) :
+    G.topologicalSort = .error (.internal "NetworkXUnfeasible") := by
+  cases h : G.topologicalSort with
+  | ok l => exact absurd (acyclic_of_isTopoOrder G hG.nodup l (topologicalSort_spec G hG l h)) hA
+  | error e => rw [topoLoop_error G _ _ _ _ e h]
+
+/-- `nx.is_directed_acyclic_graph` of the model decides acyclicity -/
+theorem isAcyclic_iff (G : MG α) (hG : G.WF) : G.isAcyclic = true ↔ G.Acyclic := by
+  unfold isAcyclic
+  constructor
+  · intro h
+    cases hs : G.topologicalSort with
+    | ok l => exact acyclic_of_isTopoOrder G hG.nodup l (topologicalSort_spec G hG l hs)
+    | error e => rw [hs] at h; cases h
+  · intro hA
+    obtain ⟨l, hl⟩ := topologicalSort_total G hG hA
+    rw [hl]
+
+private theorem acyclic_congr (G H : MG α) (hd : ∀ u v, G.DiEdge u v ↔ H.DiEdge u v) :
+    G.Acyclic ↔ H.Acyclic := by
+  have : G.DiEdge = H.DiEdge := by funext u v; exact propext (hd u v)
+  simp [Acyclic, this]
+
+/-- insertion-order clause for `topological_sort`: the order computed from ANY construction `H` of the same
+graph (`H == G`) is a valid linear extension of `G` -/
+theorem topologicalSort_any_insertion_order (G H : MG α) (hG : G.WF) (hH : H.WF) (h : G.equiv H = true)
+    (l : List α) (hl : H.topologicalSort = .ok l) : G.IsTopoOrder l := by
+  rw [equiv_iff] at h
+  obtain ⟨hp, ho⟩ := topologicalSort_spec H hH l hl
+  refine ⟨hp.trans ?_, fun u v huv => ho u v ((h.2.1 u v).1 huv)⟩
+  rw [List.perm_ext_iff_of_nodup hH.nodup hG.nodup]
+  exact fun v => (h.1 v).symm
+
+/-- … and whether it succeeds does not depend on the insertion order either -/
+theorem equiv_congr_topologicalSort_ok (G H : MG α) (hG : G.WF) (hH : H.WF) (h : G.equiv H = true) :
+    (∃ l, G.topologicalSort = .ok l) ↔ (∃ l, H.topologicalSort = .ok l) := by
+  rw [equiv_iff] at h
+  have hA := acyclic_congr G H h.2.1
+  constructor
+  · rintro ⟨l, hl⟩
+    exact topologicalSort_total H hH
+      (hA.1 (acyclic_of_isTopoOrder G hG.nodup l (topologicalSort_spec G hG l hl)))
+  · rintro ⟨l, hl⟩
+    exact topologicalSort_total G hG
+      (hA.2 (acyclic_of_isTopoOrder H hH.nodup l (topologicalSort_spec H hH l hl)))
+
+/-! ## 14. `pre` with the default order: the nodes strictly before the first member of `S` in the
+topological order of the graph -/
+
+/-- `pre(S)` and `pre(S, [])` (an empty order is falsy in Python) use `topological_sort()`;
+the result is the prefix of that order that stops at the first member of `S` -/
+theorem pre_spec (G : MG α) (hG : G.WF) (S P : List α) (o : Option (List α)) (ho : o = none ∨ o = some [])
+    (h : G.pre S o = .ok P) :
+    ∃ l rest, G.topologicalSort = .ok l ∧ G.IsTopoOrder l ∧ l = P ++ rest ∧ (∀ x ∈ P, x ∉ S) ∧
+      (∀ y, rest.head? = some y → y ∈ S) ∧
+      (∀ v, v ∈ P ↔ v ∈ G.nodes ∧ ∀ s ∈ S, s ∈ G.nodes → l.idxOf v < l.idxOf s) := by
+  have hpre : G.pre S o = (do let o ← G.topologicalSort; pure (preOf o S)) := by
+    rcases ho with rfl | rfl <;> rfl
+  rw [hpre] at h
+  cases hs : G.topologicalSort with
+  | error e => rw [hs] at h; cases h
+  | ok l =>
+    rw [hs] at h
+    simp only [bind, Except.bind, pure, Except.pure, Except.ok.injEq] at h
+    subst h
+    have hl := topologicalSort_spec G hG l hs
+    refine ⟨l, l.dropWhile (· ∉ S), rfl, hl, (preOf_prefix l S).symm, preOf_avoids l S,
+      fun y hy => preOf_stops l S y hy, fun v => ?_⟩
+    rw [mem_preOf_iff]
+    have hmem : ∀ x, x ∈ l ↔ x ∈ G.nodes := fun x => hl.1.mem_iff
+    simp only [hmem]
+
+/-- `pre` fails only when the graph is cyclic (and no explicit order is given) -/
+theorem pre_total (G : MG α) (hG : G.WF) (hA : G.Acyclic) (S : List α) (o : Option (List α)) :
+    ∃ P, G.pre S o = .ok P := by
+  obtain ⟨l, hl⟩ := topologicalSort_total G hG hA
+  rcases o with _ | ⟨_ | ⟨a, os⟩⟩
+  · exact ⟨preOf l S, by simp [pre, hl, bind, Except.bind, pure, Except.pure]⟩
+  · exact ⟨preOf l S, by simp [pre, hl, bind, Except.bind, pure, Except.pure]⟩
+  · exact ⟨_, rfl⟩
+
+/-- the default `pre` is closed under parents (a prefix of a topological order is ancestral) -/
+theorem pre_ancestral (G : MG α) (hG : G.WF) (S P : List α) (h : G.pre S none = .ok P) (u v : α)
+    (huv : G.DiEdge u v) (hv : v ∈ P) : u ∈ P := by
+  obtain ⟨l, rest, _, hl, e, _⟩ := pre_spec G hG S P none (Or.inl rfl) h
+  exact prefix_ancestral G hG.nodup l P rest hl e u v huv hv
+
+/-- `pre` with an explicit non-empty order never consults the graph: it is the prefix of that order before
+the first member of `S` -/
+theorem pre_explicit_spec (G : MG α) (S : List α) (a : α) (os : List α) :
+    G.pre S (some (a :: os)) = .ok (preOf (a :: os) S) ∧
+    ∀ v, v ∈ preOf (a :: os) S ↔
+      v ∈ a :: os ∧ ∀ s ∈ S, s ∈ a :: os → (a :: os).idxOf v < (a :: os).idxOf s :=
+  ⟨rfl, fun v => mem_preOf_iff (a :: os) S v⟩
+
+/-! ## 15. `get_nodes_in_directed_paths`: the nodes on simple directed paths from `S` to `T`
+
+`G.OnSimpleDiPath S T v` (Spec/GraphSpec.lean): `v` lies on a simple directed path with at least one edge from a
+member of `S` to a member of `T`.  Both implementations — transitive closure for acyclic graphs, enumeration of
+simple paths (`nx.all_simple_paths`) for graphs with a directed cycle — return exactly this set (the second one
+since `fix:` 2ae6e11, before which it also returned the members of `S ∩ T` as trivial paths).  They still differ
+on arguments that are not nodes: the acyclic branch ignores them, the cyclic one raises `NodeNotFound`. -/
+
+/-- acyclic branch: never fails -/
+theorem nodesInDirectedPaths_dag_spec (G : MG α) (hG : G.WF) (hA : G.Acyclic) (S T : List α) :
+    ∃ R, G.nodesInDirectedPaths S T = .ok R ∧ ∀ v, v ∈ R ↔ G.OnSimpleDiPath S T v := by
+  refine ⟨G.nodesInDirectedPathsDag S T, by simp [nodesInDirectedPaths, (isAcyclic_iff G hG).2 hA], fun v => ?_⟩
+  rw [mem_nodesInDirectedPathsDag G hG]
+  constructor
+  · rintro ⟨s, hs, t, ht, p, hp, hl, hv⟩
+    exact ⟨s, hs, t, ht, p, hp, hp.nodup_of_acyclic hA, hl, hv⟩
+  · rintro ⟨s, hs, t, ht, p, hp, _, hl, hv⟩
+    exact ⟨s, hs, t, ht, p, hp, hl, hv⟩
+
+/-- cyclic branch: returns when one argument is empty or all arguments are nodes -/
+theorem nodesInDirectedPaths_cyclic_spec (G : MG α) (hG : G.WF) (hA : ¬ G.Acyclic) (S T : List α)
+    (h : S = [] ∨ T = [] ∨ ((∀ s ∈ S, s ∈ G.nodes) ∧ ∀ t ∈ T, t ∈ G.nodes)) :
+    ∃ R, G.nodesInDirectedPaths S T = .ok R ∧ ∀ v, v ∈ R ↔ G.OnSimpleDiPath S T v := by
+  obtain ⟨R, hR, hmem⟩ := nodesInDirectedPathsCyclic_ok G hG S T h
+  have hac : G.isAcyclic = false := by
+    rw [← Bool.not_eq_true, isAcyclic_iff G hG]; exact hA
+  exact ⟨R, by simp [nodesInDirectedPaths, hac, hR], hmem⟩
+
+/-- cyclic branch: the only failure is an argument that is not a node while both sets are non-empty -/
+theorem nodesInDirectedPaths_cyclic_error (G : MG α) (hG : G.WF) (hA : ¬ G.Acyclic) (S T : List α)
+    (hS : S ≠ []) (hT : T ≠ []) (h : ¬ ((∀ s ∈ S, s ∈ G.nodes) ∧ ∀ t ∈ T, t ∈ G.nodes)) :
+    G.nodesInDirectedPaths S T = .error (.internal "NodeNotFound") := by
+  have hac : G.isAcyclic = false := by
+    rw [← Bool.not_eq_true, isAcyclic_iff G hG]; exact hA
+  simp [nodesInDirectedPaths, hac, nodesInDirectedPathsCyclic_error G S T hS hT h]
+
+/-- both branches at once: whatever the function returns is the set of nodes on simple directed paths with at
+least one edge from `S` to `T` -/
+theorem nodesInDirectedPaths_spec (G : MG α) (hG : G.WF) (S T R : List α)
+    (h : G.nodesInDirectedPaths S T = .ok R) (v : α) : v ∈ R ↔ G.OnSimpleDiPath S T v := by
+  by_cases hA : G.Acyclic
+  · obtain ⟨R', hR', hmem⟩ := nodesInDirectedPaths_dag_spec G hG hA S T
+    rw [h] at hR'; cases hR'; exact hmem v
+  · by_cases hargs : S = [] ∨ T = [] ∨ ((∀ s ∈ S, s ∈ G.nodes) ∧ ∀ t ∈ T, t ∈ G.nodes)
+    · obtain ⟨R', hR', hmem⟩ := nodesInDirectedPaths_cyclic_spec G hG hA S T hargs
+      rw [h] at hR'; cases hR'; exact hmem v
+    · simp only [not_or] at hargs
+      rw [nodesInDirectedPaths_cyclic_error G hG hA S T hargs.1 hargs.2.1 hargs.2.2] at h
+      cases h
+
+/-- it returns whenever the arguments are nodes -/
+theorem nodesInDirectedPaths_total (G : MG α) (hG : G.WF) (S T : List α)
+    (hS : ∀ s ∈ S, s ∈ G.nodes) (hT : ∀ t ∈ T, t ∈ G.nodes) : ∃ R, G.nodesInDirectedPaths S T = .ok R := by
+  by_cases hA : G.Acyclic
+  · obtain ⟨R, hR, _⟩ := nodesInDirectedPaths_dag_spec G hG hA S T; exact ⟨R, hR⟩
+  · obtain ⟨R, hR, _⟩ := nodesInDirectedPaths_cyclic_spec G hG hA S T (Or.inr (Or.inr ⟨hS, hT⟩)); exact ⟨R, hR⟩
+
+omit [DecidableEq α] in
+/-- a member of `S ∩ T` is not returned for its own sake: the path must have an edge, and a simple path with an
+edge cannot start and end at the same node -/
+theorem onSimpleDiPath_self (G : MG α) (s v : α) : ¬ G.OnSimpleDiPath [s] [s] v := by
+  rintro ⟨s', hs, t', ht, p, hp, hn, hl, _⟩
+  simp only [List.mem_singleton] at hs ht
+  subst hs ht
+  cases hp with
+  | single => simp at hl
+  | cons _ hp' => exact (List.nodup_cons.1 hn).1 hp'.last_mem
+
+omit [DecidableEq α] in
+/-- the closure form on acyclic graphs: `v` lies between some `s ∈ S` and `t ∈ T` with `t` reachable from `s`
+by at least one edge -/
+theorem onSimpleDiPath_iff_of_acyclic (G : MG α) (hA : G.Acyclic) (S T : List α) (v : α) :
+    G.OnSimpleDiPath S T v ↔ ∃ s ∈ S, ∃ t ∈ T, TransGen G.DiEdge s t ∧
+      ReflTransGen G.DiEdge s v ∧ ReflTransGen G.DiEdge v t := by
+  constructor
+  · rintro ⟨s, hs, t, ht, p, hp, _, hl, hv⟩
+    exact ⟨s, hs, t, ht, (onWalk_iff G s t v).1 ⟨p, hp, hl, hv⟩⟩
+  · rintro ⟨s, hs, t, ht, h⟩
+    obtain ⟨p, hp, hl, hv⟩ := (onWalk_iff G s t v).2 h
+    exact ⟨s, hs, t, ht, p, hp, hp.nodup_of_acyclic hA, hl, hv⟩
+
+/-! ## 16. insertion-order independence of the remaining operations -/
+
+theorem equiv_congr_markovPillow (G H : MG α) (h : G.equiv H = true) (S P Q : List α)
+    (hP : G.markovPillow S = .ok P) (hQ : H.markovPillow S = .ok Q) (v : α) : v ∈ P ↔ v ∈ Q := by
+  rw [equiv_iff] at h
+  rw [markovPillow_spec G S P hP, markovPillow_spec H S Q hQ]
+  simp only [h.2.1]
+
+theorem equiv_congr_markovBlanket (G H : MG α) (h : G.equiv H = true) (S P Q : List α)
+    (hP : G.markovBlanket S = .ok P) (hQ : H.markovBlanket S = .ok Q) (v : α) : v ∈ P ↔ v ∈ Q := by
+  rw [equiv_iff] at h
+  rw [markovBlanket_spec G S P hP, markovBlanket_spec H S Q hQ]
+  simp only [h.2.1]
+
+/-- the undirected part of the moralised graph, self-loops included: `moralize` never marries a node to itself -/
+theorem biEdge_moralize_iff (G : MG α) (hG : G.WF) (u v : α) :
+    G.moralize.BiEdge u v ↔ G.BiEdge u v ∨ (u ≠ v ∧ ∃ c, G.DiEdge u c ∧ G.DiEdge v c) := by
+  by_cases huv : u = v
+  · subst huv
+    unfold moralize
+    rw [biEdge_foldl_addBi]
+    constructor
+    · rintro (h | h | h)
+      · exact Or.inl h
+      · exact absurd rfl (moralLinks_ne G hG.di_nodup u u h)
+      · exact absurd rfl (moralLinks_ne G hG.di_nodup u u h)
+    · rintro (h | ⟨h, _⟩)
+      · exact Or.inl h
+      · exact absurd rfl h
+  · rw [biEdge_moralize G hG u v huv]; simp [huv]
+
+theorem equiv_congr_moralize (G H : MG α) (hG : G.WF) (hH : H.WF) (h : G.equiv H = true) :
+    G.moralize.equiv H.moralize = true := by
+  rw [equiv_iff] at h ⊢
+  obtain ⟨hn, hd, hb⟩ := h
+  exact ⟨fun v => by simp [mem_nodes_moralize, hG, hH, hn], fun u v => by simp [diEdge_moralize, hd],
+    fun u v => by simp only [biEdge_moralize_iff, hG, hH, hd, hb]⟩
+
+theorem equiv_congr_disorient (G H : MG α) (hG : G.WF) (hH : H.WF) (h : G.equiv H = true) :
+    G.disorient.equiv H.disorient = true := by
+  rw [equiv_iff] at h ⊢
+  obtain ⟨hn, hd, hb⟩ := h
+  exact ⟨fun v => by simp [mem_nodes_disorient, hG, hH, hn],
+    fun u v => by simp [no_diEdge_disorient], fun u v => by simp only [edge_disorient, hd, hb]⟩
+
+section intervene_congr
+variable {β : Type} [DecidableEq β]
+
+/-- edges of the intervened graph between arbitrary labels (no injectivity needed) -/
+theorem diEdge_interveneRaw_iff (G : MG α) (f : α → β) (X : List α) (a b : β) :
+    (G.interveneRaw f X).DiEdge a b ↔ ∃ u v, G.DiEdge u v ∧ v ∉ X ∧ a = f u ∧ b = f v := by
+  unfold interveneRaw; rw [diEdge_fromEdges]
+  simp only [DiEdge, List.mem_map, List.mem_filter, decide_eq_true_eq, Prod.mk.injEq]
+  constructor
+  · rintro ⟨⟨u, v⟩, ⟨he, hx⟩, rfl, rfl⟩; exact ⟨u, v, he, hx, rfl, rfl⟩
+  · rintro ⟨u, v, he, hx, rfl, rfl⟩; exact ⟨(u, v), ⟨he, hx⟩, rfl, rfl⟩
+
+theorem biEdge_interveneRaw_iff (G : MG α) (f : α → β) (X : List α) (a b : β) :
+    (G.interveneRaw f X).BiEdge a b ↔ ∃ u v, G.BiEdge u v ∧ u ∉ X ∧ v ∉ X ∧ a = f u ∧ b = f v := by
+  unfold interveneRaw; rw [biEdge_fromEdges]
+  simp only [BiEdge, List.mem_map, List.mem_filter, decide_eq_true_eq, Prod.mk.injEq]
+  constructor
+  · rintro (⟨⟨u, v⟩, ⟨he, hx⟩, rfl, rfl⟩ | ⟨⟨u, v⟩, ⟨he, hx⟩, rfl, rfl⟩)
+    · exact ⟨u, v, Or.inl he, hx.1, hx.2, rfl, rfl⟩
+    · exact ⟨v, u, Or.inr he, hx.2, hx.1, rfl, rfl⟩
+  · rintro ⟨u, v, he | he, hu, hv, rfl, rfl⟩
+    · exact Or.inl ⟨(u, v), ⟨he, hu, hv⟩, rfl, rfl⟩
+    · exact Or.inr ⟨(v, u), ⟨he, hv, hu⟩, rfl, rfl⟩
+
+theorem equiv_congr_interveneRaw (G H : MG α) (hG : G.WF) (hH : H.WF) (h : G.equiv H = true)
+    (f : α → β) (X : List α) : (G.interveneRaw f X).equiv (H.interveneRaw f X) = true := by
+  rw [equiv_iff] at h ⊢
+  obtain ⟨hn, hd, hb⟩ := h
+  exact ⟨fun v => by simp only [mem_nodes_intervene, hG, hH, hn],
+    fun u v => by simp only [diEdge_interveneRaw_iff, hd], fun u v => by simp only [biEdge_interveneRaw_iff, hb]⟩
+
+/-- `intervene` succeeds or refuses independently of the insertion order, and the results are equal graphs -/
+theorem equiv_congr_intervene (G H : MG α) (hG : G.WF) (hH : H.WF) (h : G.equiv H = true)
+    (f : α → β) (X : List α) :
+    (∀ e, G.intervene f X = .error e ↔ H.intervene f X = .error e) ∧
+    ∀ G' H', G.intervene f X = .ok G' → H.intervene f X = .ok H' → G'.equiv H' = true := by
+  have hraw := equiv_congr_interveneRaw G H hG hH h f X
+  rw [equiv_iff] at h
+  have hemp : G.nodes.isEmpty = H.nodes.isEmpty := by
+    cases hg : G.nodes with
+    | nil =>
+      cases hh : H.nodes with
+      | nil => rfl
+      | cons b _ => exact absurd ((h.1 b).2 (by simp [hh])) (by simp [hg])
+    | cons a _ =>
+      cases hh : H.nodes with
+      | nil => exact absurd ((h.1 a).1 (by simp [hg])) (by simp [hh])
+      | cons b _ => rfl
+  unfold intervene
+  rw [hemp]
+  by_cases hc : (X.isEmpty && !H.nodes.isEmpty) = true
+  · simp [hc]
+  · simp only [hc, Bool.false_eq_true, if_false, Except.ok.injEq]
+    refine ⟨fun e => by simp, ?_⟩
+    rintro G' H' rfl rfl
+    exact hraw
+
+end intervene_congr
+
+private theorem diPath_congr (G H : MG α) (hd : ∀ u v, G.DiEdge u v ↔ H.DiEdge u v) (S T : List α)
+    (v : α) : G.OnSimpleDiPath S T v ↔ H.OnSimpleDiPath S T v := by
+  have key : ∀ (G H : MG α), (∀ u v, G.DiEdge u v → H.DiEdge u v) →
+      ∀ a p b, G.DiPath a p b → H.DiPath a p b := by
+    intro G H hd a p b hp
+    induction hp with
+    | single a => exact .single a
+    | cons hab _ ih => exact .cons (hd _ _ hab) ih
+  constructor
+  · rintro ⟨s, hs, t, ht, p, hp, h⟩
+    exact ⟨s, hs, t, ht, p, key G H (fun u v => (hd u v).1) _ _ _ hp, h⟩
+  · rintro ⟨s, hs, t, ht, p, hp, h⟩
+    exact ⟨s, hs, t, ht, p, key H G (fun u v => (hd u v).2) _ _ _ hp, h⟩
+
+theorem equiv_congr_nodesInDirectedPaths (G H : MG α) (hG : G.WF) (hH : H.WF) (h : G.equiv H = true)
+    (S T R R' : List α) (hR : G.nodesInDirectedPaths S T = .ok R) (hR' : H.nodesInDirectedPaths S T = .ok R')
+    (v : α) : v ∈ R ↔ v ∈ R' := by
+  rw [equiv_iff] at h
+  rw [nodesInDirectedPaths_spec G hG S T R hR v, nodesInDirectedPaths_spec H hH S T R' hR' v]
+  exact diPath_congr G H h.2.1 S T v
+
+/-! ## 17. totality: the set-valued queries return exactly when their arguments are nodes -/
+
+theorem markovPillow_ok_iff (G : MG α) (S : List α) :
+    (∃ P, G.markovPillow S = .ok P) ↔ ∀ s ∈ S, s ∈ G.nodes := by
+  unfold markovPillow checkSources
+  by_cases h : ∀ s ∈ S, s ∈ G.nodes
+  · have : S.all (· ∈ G.nodes) = true := by simpa using h
+    simpa [this, bind, Except.bind, pure, Except.pure] using h
+  · have : ¬ (S.all (· ∈ G.nodes) = true) := by simpa using h
+    simp [this, h, bind, Except.bind]
+
+theorem markovBlanket_ok_iff (G : MG α) (S : List α) :
+    (∃ P, G.markovBlanket S = .ok P) ↔ ∀ s ∈ S, s ∈ G.nodes := by
+  unfold markovBlanket checkSources
+  by_cases h : ∀ s ∈ S, s ∈ G.nodes
+  · have : S.all (· ∈ G.nodes) = true := by simpa using h
+    simpa [this, bind, Except.bind, pure, Except.pure] using h
+  · have : ¬ (S.all (· ∈ G.nodes) = true) := by simpa using h
+    simp [this, h, bind, Except.bind]
+
+/-- `get_district(v)` returns exactly when `v` is a node (otherwise `KeyError`), and what it returns is the
+class of `v` under bidirected connectivity -/
+theorem getDistrict_ok_iff (G : MG α) (hG : G.WF) (v : α) :
+    (∃ d, G.getDistrict v = .ok d) ↔ v ∈ G.nodes := by
+  unfold getDistrict
+  constructor
+  · rintro ⟨d, hd⟩
+    cases hf : G.districts.find? (fun d => decide (v ∈ d)) with
+    | none => rw [hf] at hd; cases hd
+    | some d' =>
+      have h1 := List.mem_of_find?_eq_some hf
+      have h2 := List.find?_some hf
+      exact (districts_cover G hG v).2 ⟨d', h1, by simpa using h2⟩
+  · intro hv
+    obtain ⟨d, hd, hvd⟩ := (districts_cover G hG v).1 hv
+    cases hf : G.districts.find? (fun d => decide (v ∈ d)) with
+    | none =>
+      have := List.find?_eq_none.1 hf d hd
+      simp [hvd] at this
+    | some d' => exact ⟨d', rfl⟩
+
+theorem getDistrict_spec (G : MG α) (hG : G.WF) (v : α) (d : List α) (h : G.getDistrict v = .ok d) (u : α) :
+    u ∈ d ↔ G.SameDistrict v u := by
+  unfold getDistrict at h
+  cases hf : G.districts.find? (fun d => decide (v ∈ d)) with
+  | none => rw [hf] at h; cases h
+  | some d' =>
+    rw [hf] at h
+    cases h
+    have h1 := List.mem_of_find?_eq_some hf
+    have h2 := List.find?_some hf
+    exact districts_spec G hG d h1 v (by simpa using h2) u
+
+theorem getDistrict_error (G : MG α) (hG : G.WF) (v : α) (hv : v ∉ G.nodes) :
+    G.getDistrict v = .error (.internal "KeyError") := by
+  cases h : G.getDistrict v with
+  | ok d => exact absurd ((getDistrict_ok_iff G hG v).1 ⟨d, h⟩) hv
+  | error e =>
+    unfold getDistrict at h
+    split at h
+    · cases h
+    · cases h; rfl
+
+/-! ## 18. the equality the results are compared with is an equivalence relation; results stay well formed -/
+
+theorem equiv_refl (G : MG α) : G.equiv G = true := by
+  rw [equiv_iff]; exact ⟨fun _ => Iff.rfl, fun _ _ => Iff.rfl, fun _ _ => Iff.rfl⟩
+
+theorem equiv_symm (G H : MG α) (h : G.equiv H = true) : H.equiv G = true := by
+  rw [equiv_iff] at h ⊢
+  exact ⟨fun v => (h.1 v).symm, fun u v => (h.2.1 u v).symm, fun u v => (h.2.2 u v).symm⟩
+
+theorem equiv_trans (G H K : MG α) (h₁ : G.equiv H = true) (h₂ : H.equiv K = true) : G.equiv K = true := by
+  rw [equiv_iff] at h₁ h₂ ⊢
+  exact ⟨fun v => (h₁.1 v).trans (h₂.1 v), fun u v => (h₁.2.1 u v).trans (h₂.2.1 u v),
+    fun u v => (h₁.2.2 u v).trans (h₂.2.2 u v)⟩
+
+/-- every well-formed graph is (equal to) one that `from_edges` builds, so quantifying over `WF` graphs is
+quantifying over everything the Python constructor can produce, in every insertion order -/
+theorem equiv_fromEdges_self (G : MG α) (hG : G.WF) : (fromEdges G.nodes G.di G.bi).equiv G = true := by
+  rw [equiv_iff]
+  refine ⟨fun v => ?_, fun u v => diEdge_fromEdges _ _ _ u v, fun u v => biEdge_fromEdges _ _ _ u v⟩
+  rw [mem_nodes_fromEdges]
+  constructor
+  · rintro (h | ⟨e, he, rfl | rfl⟩ | ⟨e, he, rfl | rfl⟩)
+    · exact h
+    · exact (hG.di_mem e he).1
+    · exact (hG.di_mem e he).2
+    · exact (hG.bi_mem e he).1
+    · exact (hG.bi_mem e he).2
+  · exact Or.inl
+
+theorem wf_removeInEdges (G : MG α) (S : List α) : (G.removeInEdges S).WF := wf_fromEdges _ _ _
+theorem wf_removeOutEdges (G : MG α) (S : List α) : (G.removeOutEdges S).WF := wf_fromEdges _ _ _
+theorem wf_removeNodes (G : MG α) (S : List α) : (G.removeNodes S).WF := wf_fromEdges _ _ _
+theorem wf_disorient (G : MG α) : G.disorient.WF := wf_fromEdges _ _ _
+theorem wf_interveneRaw {β : Type} [DecidableEq β] (G : MG α) (f : α → β) (X : List α) :
+    (G.interveneRaw f X).WF := wf_fromEdges _ _ _
+
+theorem wf_moralize (G : MG α) (hG : G.WF) : G.moralize.WF := by
+  refine ⟨?_, ?_, ?_, ?_⟩
+  · exact nodup_foldl_addBi _ _ hG.nodup
+  · unfold moralize; rw [di_foldl_addBi]; exact hG.di_nodup
+  · intro e he
+    have he' : e ∈ G.di := by unfold moralize at he; rwa [di_foldl_addBi] at he
+    exact ⟨(mem_nodes_moralize G hG _).2 (hG.di_mem e he').1, (mem_nodes_moralize G hG _).2 (hG.di_mem e he').2⟩
+  · intro e he
+    rcases mem_bi_foldl_addBi_sub _ _ _ he with h | h
+    · exact ⟨(mem_nodes_moralize G hG _).2 (hG.bi_mem e h).1, (mem_nodes_moralize G hG _).2 (hG.bi_mem e h).2⟩
+    · rcases e with ⟨x, y⟩
+      obtain ⟨n, _, hx, hy⟩ := mem_moralLinks G x y h
+      exact ⟨(mem_nodes_moralize G hG _).2 (hG.di_mem _ hx).1, (mem_nodes_moralize G hG _).2 (hG.di_mem _ hy).1⟩
+
+theorem equiv_congr_getDistrict (G H : MG α) (hG : G.WF) (hH : H.WF) (h : G.equiv H = true) (v : α)
+    (d e : List α) (hd : G.getDistrict v = .ok d) (he : H.getDistrict v = .ok e) (u : α) : u ∈ d ↔ u ∈ e := by
+  rw [equiv_iff] at h
+  rw [getDistrict_spec G hG v d hd, getDistrict_spec H hH v e he]
+  have : G.BiEdge = H.BiEdge := by funext a b; exact propext (h.2.2 a b)
+  simp [SameDistrict, this]
+
 /-! ## non-vacuity: a 5-node graph with an isolated node (4) and a node touched only by a
 bidirected edge (3) satisfies `WF`, and the operations return what the theorems say -/
 
@@ -544,5 +1016,25 @@ example : (exampleGraph.removeInEdges [2]).di = [(0, 1)] ∧ (exampleGraph.remov
 example : exampleGraph.ancestorsInclusive [2] = .ok [2, 1, 0] := by decide
 example : exampleGraph.districts = [[4], [0, 2, 3], [1]] := by decide
 example : exampleGraph.markovBlanket [1] = .ok [0, 2] := by decide
+example : (fromEdges ([] : List Nat) [(0, 2), (1, 2)] []).moralize.bi = [(0, 1)] := by decide
+
+/-- a graph with the directed cycle 1 → 2 → 1 -/
+def cyclicExample : MG Nat := fromEdges [] [(0, 1), (1, 2), (2, 1), (2, 3)] []
+
+example : exampleGraph.topologicalSort = .ok [4, 0, 3, 1, 2] := by decide
+example : exampleGraph.Acyclic := (isAcyclic_iff _ (wf_fromEdges _ _ _)).1 (by decide)
+example : ¬ cyclicExample.Acyclic := fun h =>
+  absurd ((isAcyclic_iff _ (wf_fromEdges _ _ _)).2 h) (by decide)
+example : cyclicExample.topologicalSort = .error (.internal "NetworkXUnfeasible") := by decide
+example : exampleGraph.pre [1] none = .ok [4, 0, 3] := by decide
+/-- acyclic branch: `2 ∈ S ∩ T` is returned only because it ends the path 0 → 1 → 2 -/
+example : exampleGraph.nodesInDirectedPaths [0, 2] [2] = .ok [1, 0, 2] := by decide
+example : exampleGraph.nodesInDirectedPaths [2] [2] = .ok [] := by decide
+/-- cyclic branch (after the fix): `3 ∈ S ∩ T` alone is not returned either -/
+example : cyclicExample.nodesInDirectedPaths [3] [3] = .ok [] := by decide
+example : cyclicExample.nodesInDirectedPaths [0, 3] [3] = .ok [0, 1, 2, 3] := by decide
+example : cyclicExample.nodesInDirectedPaths [0] [7] = .error (.internal "NodeNotFound") := by decide
+example : exampleGraph.getDistrict 3 = .ok [0, 2, 3] := by decide
+example : exampleGraph.getDistrict 7 = .error (.internal "KeyError") := by decide
 
 end Y0.MG
